@@ -6,10 +6,17 @@ product domain per instruction address:
                                ('F', id, off)    frame base after `and rsp,-N` at instruction id (+ off)
                                ('I', lo, hi, st) unsigned interval with stride
                                ('G', sym)        address of an image symbol (rip-relative lea)
-                               ('L', base, disp) 64-bit value loaded from [base + disp (+ index)] where base is an
-                                                 'E' value (typed view: field of the argument structure)
+                               ('L', base, disp, indexed) 64-bit value loaded from [base + disp (+ index)] where base is
+                                                 an 'E' value (typed view: field of the argument structure) or an 'L' value
+                                                 whose own base is an 'E' value (one level of nesting)
+                               ('X', reg, disp|None) entry value of reg + disp + an unknown index (address of an element
+                                                 inside the argument structure: `lea r, [state + _ldata + lane*size]`)
                                None              unknown
-  flags fact for branch refinement, DF, vector registers: may-be-non-zero set.
+  flags fact for branch refinement, DF, vector registers: may-be-non-zero set;
+  mc: constraints (lo, hi, excluded constants) on 64-bit memory cells [base + disp] compared against constants.
+
+The worklist pass computes the fixpoint; exits, calls, stores and notes are then collected in a final pass over the
+fixpoint states (so that every recorded fact holds on every path, not only on the first one explored).
 
 Recorded per function: exits (state summary), calls, stores through non-stack pointers, notes.
 The analysis never executes code."""
@@ -250,6 +257,8 @@ def val_add(v, k):
         return ('F', v[1], v[2] + k)
     if t == 'E':
         return ('E', v[1], v[2] + k)
+    if t == 'X':
+        return ('X', v[1], v[2] + k if v[2] is not None else None)
     if t == 'I':
         lo, hi = v[1] + k, v[2] + k
         if lo < 0 or hi > M64:
@@ -281,6 +290,9 @@ def vjoin(a, b):
         lo, hi = min(a[1], b[1]), max(a[2], b[2])
         st = gcd(gcd(a[3], b[3]), abs(a[1] - b[1]))
         return mkint(lo, hi, st if st else 1)
+    if a[0] in ('E', 'X') and b[0] in ('E', 'X') and a[1] == b[1]:
+        # same entry register, different offsets (a pointer advanced in a loop) or an indexed element address
+        return ('X', a[1], a[2] if a[2] == b[2] else None)
     # small disjunction of differently-shaped values (e.g. rax = 0 on one path, a loaded job pointer on another);
     # every operation on an 'S' value yields unknown, it is only read at exits
     sa = a[1] if a[0] == 'S' else frozenset([a])
@@ -291,19 +303,23 @@ def vjoin(a, b):
     return ('S', u)
 
 
-class St:
-    __slots__ = ('r', 's', 'fl', 'v', 'df', 'u')
+MC_TOP = (0, M64, frozenset(), 0, 0)   # (lo, hi, excluded constants, bits known set, bits known clear)
 
-    def __init__(s, r, sl, fl, v=frozenset(), df=0, u=frozenset(range(32))):
+
+class St:
+    __slots__ = ('r', 's', 'fl', 'v', 'df', 'u', 'mc')
+
+    def __init__(s, r, sl, fl, v=frozenset(), df=0, u=frozenset(range(32)), mc=None):
         s.r = r      # gpr values
         s.s = sl     # stack slots {('SP',off)|('F',id,off): value}
         s.fl = fl    # flags fact
         s.v = v      # vector registers possibly non-zero (written by this function and not scrubbed)
         s.df = df    # 0 clear, 1 set, 2 unknown
         s.u = u      # vector registers not known to be zero if they were non-zero at entry (for must-clean summaries)
+        s.mc = mc if mc is not None else {}   # {(base value, disp): (lo, hi, frozenset(excluded))} memory-cell constraints
 
     def copy(s):
-        return St(dict(s.r), dict(s.s), s.fl, s.v, s.df, s.u)
+        return St(dict(s.r), dict(s.s), s.fl, s.v, s.df, s.u, dict(s.mc))
 
 
 class FuncResult(dict):
@@ -328,7 +344,11 @@ def analyse_func(name, entry, insns, summaries, thresholds, vec_entry_dirty=Fals
     steps = 0
     store_seen = set()
 
+    final = [False]
+
     def flow(to, st):
+        if final[0]:
+            return
         if to is None or to not in insns:
             if to is not None:
                 issues.append(('flow-outside', to, ''))
@@ -370,14 +390,35 @@ def analyse_func(name, entry, insns, summaries, thresholds, vec_entry_dirty=Fals
         df = old.df if old.df == st.df else 2
         if nv != old.v or df != old.df or nu != old.u:
             changed = True
+        nmc = {}
+        for k, c in old.mc.items():
+            c2 = st.mc.get(k)
+            if c2 is not None:
+                j = (min(c[0], c2[0]), max(c[1], c2[1]), c[2] & c2[2], c[3] & c2[3], c[4] & c2[4])
+                if j != MC_TOP:
+                    nmc[k] = j
+        if nmc != old.mc:
+            changed = True
         if changed:
-            states[to] = St(nr, ns, fl, nv, df, nu)
+            states[to] = St(nr, ns, fl, nv, df, nu, nmc)
             work.append(to)
 
-    while work:
+    while True:
+      if not work:
+        if final[0] or not collect:
+            break
+        # fixpoint reached: collect exits / calls / stores / notes from the fixpoint states only
+        final[0] = True
+        del stores[:], notes[:], special[:], exits[:]
+        store_seen.clear()
+        seen_exit.clear()
+        calls.clear()
+        work = sorted(states, reverse=True)
+        continue
+      else:
         a = work.pop()
         steps += 1
-        if steps > 400000:
+        if steps > 400000 and not final[0]:
             issues.append(('nonterm', a, ''))
             break
         st = states[a].copy()
@@ -447,6 +488,12 @@ def analyse_func(name, entry, insns, summaries, thresholds, vec_entry_dirty=Fals
                     if iv is not None and iv[0] in ('SP', 'F'):
                         return ('stackany', iv[:-1])
                 return ('ptr', b, m['disp'], m['index'] is not None)
+            if b[0] == 'X':
+                if m['index'] in GPR64 and m['scale'] == 1:
+                    iv = regs[m['index']]
+                    if iv is not None and iv[0] in ('SP', 'F'):
+                        return ('stackany', iv[:-1])
+                return ('ptr', ('E', b[1], 0), (b[2] + m['disp']) if (b[2] is not None and m['disp'] is not None) else None, True)
             if b[0] == 'I' and m['index'] in GPR64:
                 iv = regs[m['index']]
                 if iv is not None and iv[0] in ('SP', 'F') and m['scale'] == 1 and m['disp'] is not None:
@@ -457,6 +504,10 @@ def analyse_func(name, entry, insns, summaries, thresholds, vec_entry_dirty=Fals
             return None
 
         def kill(ad, w):
+            if ad is not None and ad[0] == 'ptr' and st.mc:
+                for k_ in [k_ for k_ in st.mc if k_[0] == ad[1] and
+                           (ad[3] or ad[2] is None or (ad[2] < k_[1] + 8 and k_[1] < ad[2] + w))]:
+                    del st.mc[k_]
             if ad is None or ad[0] in ('glob', 'ptr'):
                 return
             if ad[0] == 'stackany':
@@ -485,8 +536,12 @@ def analyse_func(name, entry, insns, summaries, thresholds, vec_entry_dirty=Fals
             if key in store_seen:
                 return
             store_seen.add(key)
-            stores.append({'a': a, 'base': ad[1], 'disp': ad[2], 'indexed': ad[3], 'w': w, 'src': srcval, 'kind': kind,
-                           'imm': imm})
+            rec = {'a': a, 'base': ad[1], 'disp': ad[2], 'indexed': ad[3], 'w': w, 'src': srcval, 'kind': kind, 'imm': imm}
+            if st.mc:
+                rec['mc'] = dict(st.mc)
+            if '{k' in ins['ops'].split(',')[0]:
+                rec['masked'] = True
+            stores.append(rec)
 
         def check_exit(kind, target=None):
             bad = []
@@ -516,6 +571,51 @@ def analyse_func(name, entry, insns, summaries, thresholds, vec_entry_dirty=Fals
             if fl is None:
                 return st2
             kind, ra, vb = fl
+            mkey = None
+            if kind == 'cmpm':
+                mkey = ra
+            elif kind == 'cmp' and ra in GPR64 and st2.r[ra] is not None and st2.r[ra][0] == 'L' and not st2.r[ra][3] and \
+                    st2.r[ra][2] is not None and vb is not None and vb[0] == 'I' and vb[1] == vb[2] and vb[1] < (1 << 31):
+                mkey = (st2.r[ra][1], st2.r[ra][2])
+            if kind == 'testm':
+                cond = cc if taken else NEG.get(cc)
+                lo, hi, ex, ones, zeros = st2.mc.get(ra, MC_TOP)
+                if cond == 'e':
+                    zeros |= vb
+                elif cond == 'ne' and vb & (vb - 1) == 0:
+                    ones |= vb
+                else:
+                    return st2
+                if ones & zeros:
+                    return None
+                st2.mc[ra] = (lo, hi, ex, ones, zeros)
+                return st2
+            if mkey is not None:
+                c = vb[1]
+                cond = cc if taken else NEG.get(cc)
+                lo, hi, ex, ones, zeros = st2.mc.get(mkey, MC_TOP)
+                if cond == 'e':
+                    lo, hi = max(lo, c), min(hi, c)
+                elif cond == 'ne':
+                    ex = ex | {c}
+                elif cond == 'b':
+                    hi = min(hi, c - 1)
+                elif cond == 'be':
+                    hi = min(hi, c)
+                elif cond == 'a':
+                    lo = max(lo, c + 1)
+                elif cond == 'ae':
+                    lo = max(lo, c)
+                else:
+                    return st2
+                while lo in ex and lo <= hi:
+                    lo += 1
+                while hi in ex and hi >= lo:
+                    hi -= 1
+                if lo > hi:
+                    return None
+                st2.mc[mkey] = (lo, hi, frozenset(x for x in ex if lo < x < hi), ones, zeros)
+                return st2
             if ra not in GPR64:
                 return st2
             cur = st2.r[ra]
@@ -733,8 +833,14 @@ def analyse_func(name, entry, insns, summaries, thresholds, vec_entry_dirty=Fals
                         v = slots.get(ad[1] + (ad[2],))
                         if v is not None and v[0] == 'FLAGS':
                             v = None
-                    elif ad is not None and ad[0] == 'ptr' and ad[1][0] == 'E' and (ms['w'] in (None, 8)):
+                    elif ad is not None and ad[0] == 'ptr' and (ms['w'] in (None, 8)) and \
+                            (ad[1][0] == 'E' or (ad[1][0] == 'L' and ad[1][1][0] == 'E')):
                         v = ('L', ad[1], ad[2], ad[3])
+                        if ad[3] and st.mc:
+                            # an indexed slot may hold a different pointer each time it is read: facts about cells reached
+                            # through the previous value do not carry over
+                            for k_ in [k_ for k_ in st.mc if k_[0] == v or (k_[0][0] == 'L' and k_[0][1] == v)]:
+                                del st.mc[k_]
                 if v is None and mn in ('mov', 'movzx'):
                     wsrc = ms['w'] or WID.get(d, 8)
                     if wsrc in (1, 2):
@@ -757,6 +863,8 @@ def analyse_func(name, entry, insns, summaries, thresholds, vec_entry_dirty=Fals
                 b = regs[m['base']]
                 if m['index'] is None:
                     v = val_add(b, m['disp'])
+                elif b is not None and b[0] in ('E', 'X') and not (regs.get(SUB.get(m['index'])) or ('?',))[0] in ('SP', 'F', 'E', 'X', 'L', 'G'):
+                    v = ('X', b[1], (b[2] + m['disp']) if b[2] is not None else None)
                 else:
                     iv = getv(m['index'])
                     if b is not None and b[0] == 'I' and iv is not None and iv[0] == 'I':
@@ -859,8 +967,29 @@ def analyse_func(name, entry, insns, summaries, thresholds, vec_entry_dirty=Fals
                     if not (cur is not None and cur[0] == 'I' and cur[2] < (1 << 32)):
                         v = None
                 newfl = ('cmp', SUB[ops[0]], v) if v is not None else None
+            elif parse_mem(ops[0]) is not None and parse_mem(ops[1]) is None:
+                m0 = parse_mem(ops[0])
+                ad = memaddr(m0)
+                v = getv(ops[1])
+                if ad is not None and ad[0] == 'ptr' and not ad[3] and ad[2] is not None and (m0['w'] in (4, 8)) and \
+                        v is not None and v[0] == 'I' and v[1] == v[2] and v[1] < (1 << 31):
+                    newfl = ('cmpm', (ad[1], ad[2]), v)
         elif mn in ('test', 'or', 'and') and len(ops) == 2 and ops[0] == ops[1] and ops[0] in GPR64:
             newfl = ('zero', ops[0], None)
+        elif mn == 'test' and len(ops) == 2 and re.match(r'^(0x[0-9a-f]+|\d+)$', ops[1]) and int(ops[1], 0) < (1 << 31):
+            # bit test of a tracked memory cell (directly, or through a register holding its loaded value)
+            key_ = None
+            m0 = parse_mem(ops[0])
+            if m0 is not None:
+                ad = memaddr(m0)
+                if ad is not None and ad[0] == 'ptr' and not ad[3] and ad[2] is not None:
+                    key_ = (ad[1], ad[2])
+            elif ops[0] in SUB:
+                cur = regs[SUB[ops[0]]]
+                if cur is not None and cur[0] == 'L' and not cur[3] and cur[2] is not None:
+                    key_ = (cur[1], cur[2])
+            if key_ is not None:
+                newfl = ('testm', key_, int(ops[1], 0))
         elif mn == 'test' and len(ops) == 2 and ops[0] == ops[1] and ops[0] in SUB and WID[ops[0]] == 4:
             cur = regs[SUB[ops[0]]]
             if cur is not None and cur[0] == 'I' and cur[2] < (1 << 32):
